@@ -14,6 +14,7 @@ import SwV.Spec.C01
 import SwV.Spec.C38
 import SwV.Lemmas.C01
 import SwV.Props.C01
+import SwV.Gen.C38
 
 namespace SwV.Props.C38
 open SwV.Model.C01 SwV.Spec.C01 SwV.Lemmas.C01 SwV.Spec.C38 SwV.Props.C01
@@ -91,5 +92,36 @@ theorem sequential_history_is_its_own_linearization (calls : List Call)
 theorem linearize_empty {σ : Type} (stepf : σ → Op → σ × List String) (okf : Rcd → List String → Bool)
     (st0 : σ) (fuel : Nat) : linearize stepf okf st0 [] fuel = .found := by
   simp [linearize, search]
+
+/-! ## T1 bridges for the ATOMICITY ASSUMPTION (props/C38/extract.json → `SwV.Gen.C38`)
+
+The step function itself (`doWriteRequest`, `doDeleteRequest`, `readNeedle`, `isFileUnchanged`) is bridged in
+`SwV.Props.C01` (imported above; regenerated through props/C01/extract.json).  What C38 adds is WHERE those
+steps run: under `dataFileAccessLock` in `syncWrite` / `syncDelete`, and for the batched (fsync) path inside
+the single critical section of `startWorker`.  Lock placement is not an expression the extractor can name, so
+it is pinned by the hash of the whole (short) functions: moving an `Unlock`, adding a lock-free fast path or
+releasing the lock around `Sync()` breaks `bridge_atomicity_pins`. -/
+
+/-- which path a call takes and what the batch worker applies to each request -/
+theorem bridge_worker_steps :
+    SwV.Gen.C38.write_path_choice = "!fsync" ∧
+    SwV.Gen.C38.worker_empty_batch = "len(currentRequests) == 0" ∧
+    SwV.Gen.C38.worker_is_write = "currentRequests[i].IsWriteRequest" ∧
+    SwV.Gen.C38.worker_write_arg = "currentRequests[i].N" ∧
+    SwV.Gen.C38.worker_delete_arg = "currentRequests[i].N" ∧
+    SwV.Gen.C38.worker_rollback_cond = "currentRequests[i].IsSucceed()" := by decide
+
+/-- the functions that hold `dataFileAccessLock` around the atomic step -/
+theorem bridge_atomicity_pins :
+    SwV.Gen.C38.src_syncWrite = "474a364d8c232e39" ∧ SwV.Gen.C38.src_syncDelete = "fda0258c18889fe6" ∧
+    SwV.Gen.C38.src_writeNeedle2 = "5a500af09b68573a" ∧ SwV.Gen.C38.src_deleteNeedle2 = "c119c730acc1e08e" ∧
+    SwV.Gen.C38.src_startWorker = "34ecf45dfe50dd6b" ∧ SwV.Gen.C38.src_asyncRequestAppend = "808761d9be4fb006" := by
+  decide
+
+/-- the step functions applied inside those critical sections are the ones bridged for C01 -/
+theorem bridge_step_functions :
+    SwV.Gen.C01.src_doWriteRequest = "673b0ac565c7bfce" ∧ SwV.Gen.C01.src_doDeleteRequest = "bb4f3b7b20271c7d" ∧
+    SwV.Gen.C01.src_readNeedle = "f3764387cee126f8" ∧ SwV.Gen.C01.src_isFileUnchanged = "9b0c84174250e52d" := by
+  decide
 
 end SwV.Props.C38
